@@ -216,11 +216,18 @@ def run(ctx):
         for rn, mn in itertools.product([False, True], repeat=2):
             check_tree(ctx, ("compl", "method", dict(retain_names=rn, minify=mn), ("leaf", a)), "all_options")
     # symbol mismatch is refused, not answered
-    a, b = mk_dfa(gen.rand_dfa_def(rng, alphabet="ab")), mk_dfa(gen.rand_dfa_def(rng, alphabet="a"))
-    for op in OPS:
-        g = outcome(lambda: getattr(a, op)(b))
-        if g[:2] != ("err", enc.MISMATCH):
-            ctx.violation(f"{op} over different alphabets answered {g} instead of SymbolMismatchError", {"kind": "mismatch", "op": op})
+    # (every relation between the two alphabets: left a superset, left a subset, overlapping, disjoint; both kinds of table)
+    for sa, sb in [("ab", "a"), ("a", "ab"), ("ab", "bc"), ("ab", "cd"), ("a", "b"), ("abc", "ab"), ("ab", "abc")] * ctx.n(2, 10):
+        da, db = gen.rand_dfa_def(rng, alphabet=sa), gen.rand_dfa_def(rng, alphabet=sb)
+        a, b = mk_dfa(da), mk_dfa(db)
+        for op in OPS:
+            kw = rng.choice([{}, dict(minify=False), dict(retain_names=True), dict(retain_names=True, minify=False)])
+            g = outcome(lambda: getattr(a, op)(b, **kw))
+            ctx.tally("alphabet_mismatch_refusal")
+            if g[:2] != ("err", enc.MISMATCH):
+                ctx.violation(f"{op}({kw}) of a DFA over {sorted(sa)} with one over {sorted(sb)} gives {g[:2] if g[0] == 'err' else g} "
+                              "instead of SymbolMismatchError",
+                              {"kind": "mismatch", "op": op, "A": repr(da), "B": repr(db), "kwargs": kw})
     if ctx.tier == "thorough":
         defs = []
         for n in (1, 2):
